@@ -377,7 +377,7 @@ def cases(tier, seed):
                 continue
             out.append({'name': 'value%d:%s|page' % (vi, st), 'family': 'value',
                         'params': dict(v, style=st, slice='page'),
-                        'budget': 150.0 if tier == 'quick' else 500.0, 'path_timeout': 40.0,
+                        'budget': 90.0 if tier == 'quick' else 500.0, 'path_timeout': 40.0,
                         'twin': vi == 0 and st == 'dark'})
         for si, st in enumerate(styles):
             if tier == 'quick' and (si + vi) % 3 != 0:
@@ -395,7 +395,7 @@ def cases(tier, seed):
         for st in (['dark'] if tier == 'quick' else ['dark', 'light', 'default']):
             out.append({'name': 'doc:%s:%s' % (sk, st), 'family': 'doc',
                         'params': {'skeleton': sk, 'style': st},
-                        'budget': 200.0 if tier == 'quick' else 900.0, 'path_timeout': 40.0,
+                        'budget': 100.0 if tier == 'quick' else 900.0, 'path_timeout': 40.0,
                         'twin': sk == 'flat'})
     return out
 
